@@ -609,6 +609,10 @@ class Specifier(BaseSpecifier):
         ['1.3', '1.5a1']
         """
 
+        # An explicit setting on the specifier is as binding as the argument.
+        if prereleases is None and self._prereleases is not None:
+            prereleases = self._prereleases
+
         yielded = False
         found_prereleases = []
 
